@@ -30,7 +30,8 @@ SPECS = {
                   'get_W_compensated', 'normalize_field', 'get_raw_power', 'calc_pk_from_deltak', '_normalize',
                   'bin_kmu', 'bin_kppi'])],      # N_mode / the binned table: the kernels C08 models
     'C14': [('abacusnbody/data/asdf.py', ['BloscCompressor.compress'])],   # decompress is translated (tools/gen/c14.py)
-    'C15': [('abacusnbody/data/pack9.py', ['unpack_pack9', '_unpack_pack9', '_expand_to_short'])],
+    'C15': [('abacusnbody/data/pack9.py', ['unpack_pack9', '_unpack_pack9', '_expand_to_short']),
+            ('abacusnbody/data/read_abacus.py', ['read_asdf'])],
     'C16': [('abacusnbody/data/read_abacus.py', ['read_asdf', '_resolve_columns'])],
     'C17': [(TSC, ['partition_parallel'])],
     'C20': [('abacusnbody/data/pipe_asdf.py', ['unpack_to_pipe', 'main'])],
